@@ -264,7 +264,15 @@ class Env:
                 # the ordinary way: nothing of that listener is left behind in any of them
                 async with stream_events([self.hs[0].ctx.resource_added, self.hs[1].ctx.resource_added, ctx.resource_added]):
                     pass
-            h.cm = ctx.resource_added.stream_events(max_queue_size=100000)
+            if h.idx % 2:
+                # the observed listener subscribes through a signal object it obtained earlier, after an earlier
+                # subscription through that very object has come and gone: still the context's channel
+                held = ctx.resource_added
+                async with held.stream_events():
+                    pass
+                h.cm = held.stream_events(max_queue_size=100000)
+            else:
+                h.cm = ctx.resource_added.stream_events(max_queue_size=100000)
             h.it = await h.cm.__aenter__()
             # a listener that reads what it has received only at the very end
             h.lazy_cm = ctx.resource_added.stream_events(max_queue_size=100000)
